@@ -72,8 +72,11 @@ impl KValue {
 
         let result = match &self {
             KValue::List(l) => {
-                let result = l
-                    .data()
+                // The entries are copied from a snapshot taken under a single borrow: a list can
+                // contain itself, and nested borrows of the same list can deadlock with the arc
+                // feature when another thread is waiting to write.
+                let entries = l.data().clone();
+                let result = entries
                     .iter()
                     .map(|v| v.deep_copy_with_nesting_limit(nesting_limit))
                     .collect::<Result<_>>()?;
@@ -87,8 +90,8 @@ impl KValue {
                 KValue::Tuple(result.into())
             }
             KValue::Map(m) => {
-                let data = m
-                    .data()
+                let entries = m.data().clone();
+                let data = entries
                     .iter()
                     .map(|(k, v)| {
                         v.deep_copy_with_nesting_limit(nesting_limit)
